@@ -72,6 +72,10 @@ func init() {
 				Info: map[string]interface{}{"deliver_tx_cases": len(cases), "accepted": acc, "rejected": rej}}, err
 		},
 		Runs: []runSpec{{"S-collide", 3, 4, nil}, {"S-life", 4, 5, nil}}}
+	props["C17"] = propSpec{Checker: func() Checker { return chkC17{} }, Assume: []string{
+		"bounded: all create/revoke sequences over 2 owners x 7 serials (0,1,255,256,257,2^64,2^159) plus two create requests naming another account, to the stated depth",
+		"certificates with serial 0 are produced by patching DER (the chain never verifies the self-signature)"},
+		Runs: []runSpec{{"S-cert", 4, 6, nil}}}
 	props["C03"] = propSpec{Checker: func() Checker { return chkC03{} }, Assume: common,
 		Runs: []runSpec{{"S-escrow", 5, 7, nil}, {"S-leased", 5, 6, nil}, {"S-life", 4, 6, nil}}}
 	props["C04"] = propSpec{Checker: func() Checker { return chkC04{} }, Assume: common,
